@@ -235,6 +235,15 @@ def worker(ctx, shard):
                 continue
             seen.add(key)
             got = _call(iv[u].range, start, stop, k)
+            plural = D.d3_time.get(u + "s")
+            if plural is not None and rng.random() < 0.1 and isinstance(k, int):
+                # the plural entry points (d3_time["hours"], ...) enumerate the same range; they may be bound before any hook
+                # is installed, so the driver compares their result with the singular call itself
+                got2 = _call(plural, start, stop, k)
+                ctx.path("plural-entry-points")
+                if got is not None and got2 != got:
+                    ctx.judge("range", VIOLATED, {"unit": u, "start": start, "stop": stop, "step": k},
+                              finding={"plural_entry_point": u + "s", "got": [t.isoformat() for t in (got2 or [])][:5], "singular_range": [t.isoformat() for t in got][:5]}, key=u + "s.range")
             if got is not None and len(got) >= 2:
                 nontriv += 1
                 if rng.random() < 0.15 and isinstance(got, list):
